@@ -288,6 +288,20 @@ def emit_fn(card, repo, out, info, twin=False):
     for (hname, where, anchor, occ, htext) in card.hints:
         k = 0
         done = False
+        if where == 'loopend':
+            # before the closing brace of loop <anchor>'s body
+            n = int(anchor)
+            # segment that starts with the `{` of loop n: the body segment following ('loop%d' % n)
+            for si, seg in enumerate(hinted):
+                if seg[0] == 'loop%d' % n:
+                    tgt = hinted[si + 1]
+                    p0 = tgt[1].index('{')
+                    p1 = match_close(tgt[1], p0)
+                    tgt[1] = tgt[1][:p1] + '\n\x00HINT:%s\x00\n' % hname + tgt[1][p1:]
+                    break
+            else:
+                raise GenError('%s: loopend hint needs a //@loop %d contract' % (fid, n))
+            continue
         if where in ('start', 'end'):
             mark = '\n\x00HINT:%s\x00\n' % hname
             if where == 'start':
